@@ -12,6 +12,8 @@ vars == <<ignored, stack, nops>>
 Init == ignored \in FieldSets /\ stack = <<>> /\ nops = 0
 Tick == nops < MaxOps /\ nops' = nops + 1
 Set(S)   == Tick /\ ignored' = S /\ UNCHANGED stack
+\* (a scope object may be created long before it is entered: what it will restore is the configuration in force when it
+\*  is ENTERED -- creating the object is not a step of this machine)
 Enter(S) == Tick /\ Len(stack) < MaxDepth /\ stack' = Append(stack, ignored) /\ ignored' = S
 ExitOk   == Tick /\ stack # <<>> /\ ignored' = stack[Len(stack)] /\ stack' = SubSeq(stack, 1, Len(stack) - 1)
 ExitErr  == Tick /\ stack # <<>> /\ stack' = SubSeq(stack, 1, Len(stack) - 1)
